@@ -43,6 +43,9 @@ SHAPES = {
     "PI": ("prop", "int = field(default=7, init=False)", dict(compare=True, init=False)),
     "PIC": ("prop", "int = field(default=7, init=False, compare=False)", dict(compare=False, init=False)),
     "PK": ("prop", "int = field(default=0, kw_only=True)", dict(compare=True, init=True)),
+    # the dataclass `hash` option has no bearing on comparison: used instead of P / PC in the second naming scheme
+    "PH": ("prop", "int = field(default=0, hash=False)", dict(compare=True, init=True)),
+    "PCH": ("prop", "int = field(default=0, compare=False, hash=True)", dict(compare=False, init=True)),
     "CO": ("one", "ASTNode | None = None", {}),
     "CT": ("tuple", "tuple[ASTNode, ...] = ()", {}),
     "CU": ("one", "CL12 | CF12 | None = None", {}),
@@ -63,7 +66,7 @@ class CF12(ASTNode):
 
 def hierarchies(tier):
     """Yield hierarchies: list of levels; a level is a list of (name, shape)."""
-    shapes = list(SHAPES)
+    shapes = [x for x in SHAPES if x not in ("PH", "PCH")]
     lvl1 = [[]] + [[(NAMES[0][0], s)] for s in shapes] + [[(NAMES[0][0], s), (NAMES[0][1], t)] for s in shapes for t in shapes]
     # the same two names declared the other way round: other classes of this process have the same field names and kinds
     # in another declaration order
@@ -91,8 +94,11 @@ def hierarchies(tier):
 RENAME = {"m": "_m", "c": "Zc", "x": "_x", "a": "a_", "k": "K9", "b": "_b"}
 
 
+RESHAPE = {"P": "PH", "PC": "PCH"}
+
+
 def renamed(h):
-    return [[(RENAME[n], s) for n, s in lv] for lv in h]
+    return [[(RENAME[n], RESHAPE.get(s, s)) for n, s in lv] for lv in h]
 
 
 _counter = itertools.count()
